@@ -132,6 +132,7 @@ var idMaps = [][2]string{
 	{"é漢\U0001F600-", ""},      // non-ASCII prefix
 	{"%2F?#&=+", ".x"},         // URL-reserved
 	{"\x01\x1f", "\x7f\u2028"}, // control characters, DEL, line separator
+	{"\\u003c", "\\u0026"},     // a literal backslash before u003c: the text of a JSON escape
 }
 
 func (v dVariant) id(tok string) string {
